@@ -95,9 +95,23 @@ func WriteBinaryLengthPrefixed(o interface{}, w io.Writer, n *int, err *error) {
 	WriteTo(buf.Bytes(), w, n, err)
 }
 
-func ReadJSON(o interface{}, bytes []byte, err *error) interface{} {
+// unmarshalJSON parses a JSON document keeping numbers as json.Number, so that
+// 64-bit integers are not rounded through float64.
+func unmarshalJSON(bz []byte, object *interface{}) error {
+	dec := json.NewDecoder(bytes.NewReader(bz))
+	dec.UseNumber()
+	if err := dec.Decode(object); err != nil {
+		return err
+	}
+	if _, err := dec.Token(); err != io.EOF {
+		return errors.New("invalid character after top-level value")
+	}
+	return nil
+}
+
+func ReadJSON(o interface{}, bz []byte, err *error) interface{} {
 	var object interface{}
-	*err = json.Unmarshal(bytes, &object)
+	*err = unmarshalJSON(bz, &object)
 	if *err != nil {
 		return o
 	}
@@ -105,9 +119,9 @@ func ReadJSON(o interface{}, bytes []byte, err *error) interface{} {
 	return ReadJSONObject(o, object, err)
 }
 
-func ReadJSONPtr(o interface{}, bytes []byte, err *error) interface{} {
+func ReadJSONPtr(o interface{}, bz []byte, err *error) interface{} {
 	var object interface{}
-	*err = json.Unmarshal(bytes, &object)
+	*err = unmarshalJSON(bz, &object)
 	if *err != nil {
 		return o
 	}
